@@ -483,6 +483,19 @@ def node_main(args):
         except Exception as e:
             rec['error'] = f'{type(e).__name__}: {e}'[:300]
         out.append(rec)
+    if args.start == 0:
+        # fixed regression scenario for finding F11 (repaired): the parameter behind CL was
+        # picked from a set of names, i.e. by PYTHONHASHSEED
+        rec = {'index': -3, 'family': 'plain',
+               'history': ['remove_iiv(CL)', 'set_transit_compartments(2)', 'set_mixed_mm_fo_elimination']}
+        try:
+            import pharmpy.modeling as pm
+            b3 = base0.replace(dataset=base0.dataset.copy())
+            M3 = pm.set_mixed_mm_fo_elimination(pm.set_transit_compartments(pm.remove_iiv(b3, 'CL'), 2))
+            rec['A'] = _facts(M3, ModelHash)
+        except Exception as e:
+            rec['error'] = f'{type(e).__name__}: {e}'[:300]
+        out.append(rec)
     del stored
     out.sort(key=lambda r: (r['index'] < 0, r['index'] if r['index'] >= 0 else -r['index']))
     with open(args.out, 'w') as fh:
@@ -557,11 +570,17 @@ def compare(batch, nodes_out, hashseeds):
                                  f'PYTHONHASHSEED={hashseeds[0]} and {hashseeds[ni]} give the same code but '
                                  f'disagree on {diff}', a['index']))
                 else:
-                    stats['byproduct_transformation_depends_on_hashseed'] = \
-                        stats.get('byproduct_transformation_depends_on_hashseed', 0) + 1
-                    stats.setdefault('byproduct_examples', []).append(
-                        {'index': a['index'], 'history': a.get('history'), 'pair': a.get('pair'),
-                         'hashseeds': [hashseeds[0], hashseeds[ni]]})
+                    # the same history of public transformations built DIFFERENT content in the
+                    # two nodes (other hash seed, other processing order): the key of "the model
+                    # reached by these transformations" depends on the interpreter configuration
+                    stats['content_divergences'] = stats.get('content_divergences', 0) + 1
+                    hist_differs = a.get('history') != b.get('history') or a.get('pair') != b.get('pair')
+                    viol.append(('C12/node-divergence/content',
+                                 f'model {a["index"]} ({a["family"]}, history {a.get("history")}'
+                                 f'{" / " + str(b.get("history")) if hist_differs else ""}): the nodes with '
+                                 f'PYTHONHASHSEED={hashseeds[0]} and {hashseeds[ni]} (different processing '
+                                 f'order) build models with different generated code and keys: {diff}',
+                                 a['index']))
                 break
             if 'reparse_error' in b:
                 stats['byproduct_stored_model_does_not_reparse'] = \
